@@ -100,6 +100,9 @@ class Classes:
                         self.register(s2["cid"], f, s2["k"])
         elif k == "date":
             cls = flatland.DateYYYYMMDD
+        elif k == "joined":
+            cls = flatland.JoinedString.using(prune_empty=bool(sj.get("prune", True)))
+            self.register(sj["subs"][0]["cid"], cls.member_schema, "string")
         else:
             raise ValueError(k)
         cls = cls.named(sj["name"])
@@ -108,7 +111,7 @@ class Classes:
             over["default"] = py(sj["default"])
         if k in MAP_KINDS or k == "schema":
             over["policy"] = None if sj["policy"] == "none" else sj["policy"]
-        if k == "date":
+        if k in ("date", "joined"):
             over = {"optional": bool(sj["opt"])}
         if k == "sparse":
             over["minimum_fields"] = "required" if sj["minreq"] else None
@@ -124,6 +127,8 @@ def kind_of_element(el):
         return "slot"
     if isinstance(el, flatland.DateYYYYMMDD):
         return "date"
+    if isinstance(el, flatland.JoinedString):
+        return "joined"
     if isinstance(el, flatland.SparseDict):
         return "sparse"
     if isinstance(el, flatland.Dict):
@@ -601,7 +606,8 @@ def gen_schema(rng, cid, depth, name=None, kinds=None, allow_default=True, scala
          "isa": [], "default": None, "subs": []}
     if k in ("list", "array", "multi"):
         if k == "list":
-            s["subs"] = [gen_schema(rng, cid, depth - 1, name=rng.choice([None, None, "m"]))]
+            s["subs"] = [gen_schema(rng, cid, depth - 1, name=rng.choice([None, None, "m"]),
+                                    kinds=kinds if kinds and "date" in kinds else None)]
         else:
             s["subs"] = [gen_schema(rng, cid, 0 if rng.random() < 0.8 else depth - 1, name=rng.choice([None, "m"]),
                                     kinds=["integer", "string", "dict"])]
@@ -610,9 +616,18 @@ def gen_schema(rng, cid, depth, name=None, kinds=None, allow_default=True, scala
                 s["default"] = rng.randint(0, 3)
             else:
                 s["default"] = gen_value(rng, s, valid=True)
+    elif k == "date":
+        # DateYYYYMMDD compound: falsy (Scalar.__bool__) while blank or unparseable, yet it has three members
+        s["subs"] = [{"cid": cid(), "k": "integer", "name": nm, "opt": False, "policy": "subset", "minreq": False,
+                      "isa": [], "default": None, "subs": []} for nm in ("year", "month", "day")]
+    elif k == "joined":
+        # JoinedString: falsy while its joined text is empty (no members, or empty members kept by prune_empty=False)
+        s["prune"] = rng.random() < 0.4
+        s["subs"] = [{"cid": cid(), "k": "string", "name": None, "opt": False, "policy": "subset", "minreq": False,
+                      "isa": [], "default": None, "subs": []}]
     elif k in ("dict", "sparse"):
         names = rng.sample(NAMES, rng.randint(1, 3))
-        s["subs"] = [gen_schema(rng, cid, depth - 1, name=n) for n in names]
+        s["subs"] = [gen_schema(rng, cid, depth - 1, name=n, kinds=kinds if kinds and "date" in kinds else None) for n in names]
         s["policy"] = rng.choice(["subset", "subset", "strict", "duck", "none"])
         if k == "sparse":
             s["minreq"] = rng.random() < 0.5
@@ -631,6 +646,12 @@ def gen_value(rng, s, valid=True, depth=3):
         return rng.choice([None, 5, "", "ab", {"l": []}])
     if k in ("integer", "string"):
         return gen_scalar_raw(rng)
+    if k == "date":
+        return rng.choice(["2024-02-29", "2023-12-01", "1999-01-31", "2023-13-01", "2023-02-30", "", None, "junk", None])
+    if k == "joined":
+        if rng.random() < 0.5:
+            return rng.choice(["a,b", "", "x", ",", "a,,b", " "])
+        return {"l": [rng.choice(["", "", "a", "b", " ", "x y"]) for _ in range(rng.choice([0, 1, 1, 2, 3]))]}
     if k in SEQ_KINDS:
         n = rng.choice([0, 1, 2, 2, 3, 4])
         return {"l": [gen_value(rng, s["subs"][0], valid, depth - 1) for _ in range(n)]}
@@ -685,7 +706,7 @@ def flat_keys(rng, s, prefix="", sep="_"):
     """flat keys addressing leaves of schema `s` (one random index per list level)"""
     name = s["name"]
     k = s["k"]
-    if k in ("integer", "string"):
+    if k in ("integer", "string", "joined"):
         yield (prefix + name) if name else prefix.rstrip(sep)
     elif k in ("dict", "sparse", "schema", "date"):
         p2 = (prefix + name + sep) if name else prefix
